@@ -344,7 +344,12 @@ def main(argv=None):
             r["name"] = b.name
             bounded_results.append(r)
         except Exception as e:  # noqa: BLE001
-            broken.append((b.name, ("crash", f"{type(e).__name__}: {e}\n{traceback.format_exc()[-2000:]}")))
+            if _raised_in_repo(e):
+                # the REAL code raised inside a bounded scenario: that is a failing scenario, not a checker crash
+                bounded_results.append(dict(name=b.name, cases=1, distinct=1, bound="scenario aborted by an exception of the real code",
+                                            failures=[dict(what=f"real code raised {type(e).__name__}: {e}", input=traceback.format_exc()[-2000:])]))
+            else:
+                broken.append((b.name, ("crash", f"{type(e).__name__}: {e}\n{traceback.format_exc()[-2000:]}")))
 
     # ---- verdicts
     os.makedirs(os.path.join(ROOT, "replays", prop), exist_ok=True)
@@ -652,13 +657,25 @@ def main(argv=None):
         f"{prop} [{tier}] obligations={n_obl} discharged={discharged} by={by_backend} known={len(known_hits)} "
         f"violations={len(violations)} undecided={len(undecided)} bounded-standin={len(soft_fallback)} broken={len(broken)} wall={wall:.1f}s"
     )
-    if broken:
-        return 3
     if violations:
         return 1
+    if broken:
+        return 3
     if undecided:
         return 2
     return 0
+
+
+def _raised_in_repo(e):
+    import cardillo
+
+    root = os.path.dirname(os.path.abspath(cardillo.__file__))
+    tb = e.__traceback__
+    last = None
+    while tb is not None:
+        last = tb
+        tb = tb.tb_next
+    return last is not None and os.path.abspath(last.tb_frame.f_code.co_filename).startswith(root)
 
 
 def do_replay(prop, path, tier):
